@@ -240,7 +240,7 @@ def run(report):
     report.coverage.update({
         "evaluations": len(cases),
         "distinct_nontrivial": len(distinct),
-        "rule": "random sample of: directory chains of depth %d x per-level candidate placement {none, justfile, .justfile, JUSTFILE, .Justfile, .JUSTFILE%s, both names, both names in mixed case%s, a directory named justfile, a symbolic link named justfile to /dev/null} x (knows recipe, set fallback) x invocation level x form {just r, just REL/r from an ancestor, just ../r, --justfile, --justfile + --working-directory, just NAME=a/b r}; distinct = distinct (case, outcome)" % (
+        "rule": "random sample of: directory chains of depth %d x per-level candidate placement {none, justfile, .justfile, JUSTFILE, .Justfile, .JUSTFILE%s, both names, both names in mixed case%s, a directory named justfile, a symbolic link named justfile to /dev/null} x (knows recipe, set fallback) x invocation level x form {just r, just REL/r from an ancestor, just ../r, --justfile, --justfile + --working-directory, just NAME=a/b r, just DIR/r with a DIR that does not exist or is a regular file}; distinct = distinct (case, outcome)" % (
             3 if tier == "quick" else 4, "", ", two case variants of one name"),
         "samples": samples,
         "traces_validated_against_impl": len(cases),
